@@ -30,7 +30,7 @@ SeqToSet(q) == {q[k] : k \in 1..Len(q)}
 Judge(c) == bad' = IF PolicyOK(c) THEN bad ELSE Append(bad, [l |-> l, clauses |-> SetToSeq(Broken(c))])
 GrantRec(i, creds, d) == CallRec(i, Out(TRUE, ~creds, creds, {[k |-> "auth", db |-> d]}))
 
-TraceInit == /\ Init /\ l = 1 /\ bad = <<>>
+TraceInit == /\ Init /\ role0 = "none" /\ l = 1 /\ bad = <<>>
 
 TReset == /\ Is("Reset") /\ Consume /\ UNCHANGED bad
           /\ role0' = E.role /\ cur' = E.role /\ active' = TRUE
